@@ -15,7 +15,9 @@ RELEASES = [([1, 0], 39170), ([1, 1], 39171), ([1, 3], 11913), ([1, 4], 5892), (
             ([3, 0], 3131), ([3, 1], 3151), ([3, 2], 3180), ([3, 3], 3230), ([3, 4], 3310), ([3, 5], 3350), ([3, 5], 3351), ([3, 6], 3379),
             ([3, 7], 3394), ([3, 8], 3413), ([3, 9], 3425), ([3, 10], 3439), ([3, 11], 3495), ([3, 12], 3531), ([3, 13], 3571),
             # PyPy magics of the historical corpus (header form observed in test/bytecode_*pypy*)
-            ([2, 7], 62218), ([3, 5], 112), ([3, 6], 160), ([3, 7], 240)]
+            ([2, 7], 62218), ([3, 5], 112), ([3, 6], 160), ([3, 6], 192), ([3, 7], 240),
+            # further PyPy magics xdis accepts: header form of their Python version
+            ([3, 3], 64), ([3, 7], 224), ([3, 8], 256), ([3, 9], 336), ([3, 10], 384)]
 
 
 def run(tier, rep):
